@@ -304,3 +304,119 @@ Proof.
   destruct (bytes_eqb _ [226; 128; 169]) eqn:E2; [apply bytes_eqb_eq in E2; rewrite E2; reflexivity|].
   apply unq_high; assumption.
 Qed.
+
+Lemma enc_ascii_len : forall c, (1 <= length (enc_ascii c))%nat.
+Proof.
+  intro c. unfold enc_ascii, u00.
+  repeat match goal with |- context [if ?b then _ else _] => destruct b end; simpl; lia.
+Qed.
+
+Lemma enc_multi_len : forall ch, (1 <= length ch)%nat -> (1 <= length (enc_multi ch))%nat.
+Proof.
+  intros ch H. unfold enc_multi.
+  repeat match goal with |- context [if ?b then _ else _] => destruct b end; simpl; lia.
+Qed.
+
+Lemma utf8_valid_f_cons : forall n c r,
+  utf8_valid_f (S n) (c :: r) =
+  match utf8_width (c :: r) with O => false | S w => utf8_valid_f n (skipn (S w) (c :: r)) end.
+Proof. reflexivity. Qed.
+
+Lemma unquote_enc_f : forall n s f, utf8_valid_f n s = true ->
+  (length (enc_str_f n s) <= f)%nat -> unquote_f f (enc_str_f n s) = s.
+Proof.
+  induction n as [|n IH]; intros s f Hv Hf.
+  { destruct s; [|discriminate]. apply unquote_f_nil. }
+  destruct s as [|c r]; [apply unquote_f_nil|].
+  rewrite utf8_valid_f_cons in Hv. rewrite enc_str_f_cons in Hf |- *.
+  destruct (c <? 128) eqn:E0.
+  - rewrite utf8_width_ascii in Hv by exact E0. simpl skipn in Hv.
+    rewrite app_length in Hf. pose proof (enc_ascii_len c) as Hl.
+    destruct f as [|f]; [lia|].
+    rewrite unq_ascii by (apply N.ltb_lt; exact E0).
+    rewrite IH by (assumption || lia). reflexivity.
+  - destruct (utf8_width (c :: r)) as [|w] eqn:Ew; [discriminate|].
+    destruct (utf8_width_multi c r w E0 Ew) as [Hlen _].
+    rewrite app_length in Hf.
+    pose proof (enc_multi_len (firstn (S w) (c :: r))) as Hl. rewrite Hlen in Hl.
+    destruct f as [|f]; [lia|].
+    rewrite unq_multi by assumption.
+    rewrite IH by (assumption || lia). apply firstn_skipn.
+Qed.
+
+(* A2: what appendString wrote for a valid UTF-8 string decodes to that string *)
+Theorem unquote_enc_str : forall s, utf8_valid s = true ->
+  unquote (enc_str_f (length s) s) = s.
+Proof. intros s H. unfold unquote. apply unquote_enc_f; [exact H|lia]. Qed.
+
+(* the same through the scanner: the string literal is read back and decoded *)
+Theorem scan_encode_string : forall s k, utf8_valid s = true ->
+  exists raw, scan_string (S (length (enc_str_f (length s) s ++ 34 :: k))) (enc_str_f (length s) s ++ 34 :: k)
+              = Some (raw, k) /\ unquote raw = s.
+Proof.
+  intros s k H. exists (enc_str_f (length s) s). split; [|apply unquote_enc_str; exact H].
+  apply scan_enc_str. rewrite app_length. simpl. lia.
+Qed.
+
+Print Assumptions scan_enc_str.
+Print Assumptions unquote_enc_str.
+Print Assumptions scan_encode_string.
+
+(* ---------- without the UTF-8 hypothesis: invalid bytes come back as U+FFFD ---------- *)
+
+Fixpoint sanitize_f (n : nat) (s : bytes) : bytes :=
+  match n with
+  | O => []
+  | S n' =>
+    match s with
+    | [] => []
+    | c :: r =>
+      if c <? 128 then c :: sanitize_f n' r
+      else match utf8_width s with
+           | O => REPL_UTF8 ++ sanitize_f n' r
+           | S w => firstn (S w) s ++ sanitize_f n' (skipn (S w) s)
+           end
+    end
+  end.
+(* strings.ToValidUTF8(s, "�") with one replacement per invalid byte *)
+Definition sanitize (s : bytes) : bytes := sanitize_f (length s) s.
+
+Lemma sanitize_f_cons : forall n c r,
+  sanitize_f (S n) (c :: r) =
+  if c <? 128 then c :: sanitize_f n r
+  else match utf8_width (c :: r) with
+       | O => REPL_UTF8 ++ sanitize_f n r
+       | S w => firstn (S w) (c :: r) ++ sanitize_f n (skipn (S w) (c :: r))
+       end.
+Proof. reflexivity. Qed.
+
+Lemma unquote_enc_f_any : forall n s f,
+  (length (enc_str_f n s) <= f)%nat -> unquote_f f (enc_str_f n s) = sanitize_f n s.
+Proof.
+  induction n as [|n IH]; intros s f Hf; [apply unquote_f_nil|].
+  destruct s as [|c r]; [apply unquote_f_nil|].
+  rewrite enc_str_f_cons in Hf |- *. rewrite sanitize_f_cons.
+  destruct (c <? 128) eqn:E0.
+  - rewrite app_length in Hf. pose proof (enc_ascii_len c) as Hl.
+    destruct f as [|f]; [lia|].
+    rewrite unq_ascii by (apply N.ltb_lt; exact E0).
+    rewrite IH by lia. reflexivity.
+  - destruct (utf8_width (c :: r)) as [|w] eqn:Ew.
+    + destruct f as [|f]; [simpl in Hf; lia|].
+      change (REPL ++ enc_str_f n r) with (92 :: 117 :: 102 :: 102 :: 102 :: 100 :: enc_str_f n r).
+      rewrite unquote_f_u. change (hex4 102 102 102 100) with 65533. cbv zeta.
+      change (is_surr 65533) with false. cbv iota.
+      change (utf8_encode 65533) with REPL_UTF8.
+      rewrite IH by (simpl in Hf; lia). reflexivity.
+    + destruct (utf8_width_multi c r w E0 Ew) as [Hlen _].
+      rewrite app_length in Hf.
+      pose proof (enc_multi_len (firstn (S w) (c :: r))) as Hl. rewrite Hlen in Hl.
+      destruct f as [|f]; [lia|].
+      rewrite unq_multi by assumption.
+      rewrite IH by lia. reflexivity.
+Qed.
+
+Theorem unquote_enc_str_any : forall s, unquote (enc_str_f (length s) s) = sanitize s.
+Proof. intro s. unfold unquote, sanitize. apply unquote_enc_f_any. lia. Qed.
+
+Print Assumptions unquote_enc_str_any.
